@@ -17,7 +17,7 @@ RULE = ("seeded networks with 2-4 node types and 1-6 structurally identical node
         "M-vec (slot allocation in cache_func) and M-edge (connection conservation) run inside both compiles; non-trivial = "
         "at least one node type with >= 2 nodes and at least one edge; distinct = distinct spec hash")
 DECIDING = ['weight_conservation_checks', 'derivatives_compared_vec', 'derivatives_compared_novec', 'rows_compared_vec', 'mvec_merges', 'medge_connections',
-            'medge_eq_matvec', 'medge_eq_indexed']
+            'medge_eq_matvec', 'medge_eq_indexed', 'kernel_chain_sets_compared']
 ASSUMPTIONS = ['well-formed models (DESIGN 4a)', 'reference semantics vp/ref.py']
 CASE_TIMEOUT = 180
 
@@ -43,6 +43,8 @@ def plan(tier, seed):
     # wide groups: 10-16 nodes of one type (size thresholds of the index-based / matrix edge forms)
     n_w = 24 if tier == 'quick' else 500
     cases += [{'family': 'wide', 'cseed': rnd.randrange(1 << 30)} for _ in range(n_w)]
+    # gamma-kernel delays: the set of (order, rate) chains must not depend on vectorization
+    cases += [{'family': 'gamma_kernels', 'cseed': rnd.randrange(1 << 30)} for _ in range(24 if tier == 'quick' else 400)]
     return cases
 
 
@@ -251,7 +253,52 @@ def weight_conservation(obs, spec):
     return None
 
 
+def run_kernel_case(case, ctx):
+    """Gamma-kernel delays (two or three (delay, spread) pairs shared by the edges, several kernels per merged source): the
+    vectorized and the non-vectorized build must realise the same set of (order, rate) chains, and every chain must be one of
+    the requested kernels (M-delay reads them inside _add_edge_buffer).  Trajectories of these models are C11's business."""
+    from vp.props import c11
+    monitors.install_delay()
+    ctx11 = {'mp': ctx['mp'], 'open_risks': set(), 'excluded': open_risks(PID) | open_risks('C01')}
+    c11case = {'family': 'few_kernels', 'kernels': 'few', 'cseed': case['cseed']}
+    if case.get('spec') is not None:
+        c11case.update(spec=case['spec'], solver='euler', vec=True)
+    spec, feats, risk, solver, vec = c11.make_case(c11case, ctx11)
+    mech = {}
+    res = {'features': feats + ['gamma_kernels'], 'risk': [], 'sig': stable_hash([spec, 'kernels']), 'nontrivial': True}
+    try:
+        chains = {}
+        for v in (False, True):
+            monitors.reset()
+            try:
+                observe.compile_vf(spec, vectorize=v, solver='euler', step_size=1e-3)
+            except Exception as e:
+                import traceback
+                # (loud failures of kernel models are recorded under C11: the structural comparison needs both builds)
+                res.update(status='discard', symptom=f'compile failed: {type(e).__name__}', mech=mech)
+                return res
+            mon = monitors.collect()
+            if mon['violations']:
+                raise observe.Mismatch(f"vectorize={v}: monitor: {mon['violations'][0]}")
+            got = set()
+            for ev in mon['events']:
+                if ev and ev[0] == 'mdelay':
+                    got |= {(int(n_), round(float(r_), 6)) for n_, r_ in ev[6]}
+            chains[v] = got
+            mech['kernel_builds'] = mech.get('kernel_builds', 0) + 1
+        if chains[True] != chains[False]:
+            raise observe.Mismatch(f"gamma-kernel chains (order, rate) of the vectorized build {sorted(chains[True])} differ from those of "
+                                   f"the non-vectorized build {sorted(chains[False])}")
+        mech['kernel_chain_sets_compared'] = 1
+        res.update(status='ok', symptom='', mech=mech, sample={'chains': sorted(chains[True])})
+    except observe.Mismatch as e:
+        res.update(status='violation', symptom='silent: ' + str(e), mech=mech, spec=spec)
+    return res
+
+
 def run_case(case, ctx):
+    if case.get('family') == 'gamma_kernels':
+        return run_kernel_case(case, ctx)
     spec, feats, risk = make_spec(case, ctx['open_risks'])
     rnd = random.Random(case['cseed'] + 7)
     mech = {}
